@@ -41,6 +41,8 @@ def spec_decision(rules, default, name, roles, depth=0):
             return ev(rules[n], depth)
         if default[0] == 'check':
             return ev(default[1], depth)
+        if default[0] == 'name_empty' and 'default' in rules:
+            return ev(rules['default'], depth)
         if default[0] in ('name', 'conf') and default[1] and default[1] in rules:
             return ev(rules[default[1]], depth)
         return False
@@ -56,7 +58,9 @@ def run(run, binfo):
     defaults = [('none',), ('name', 'default'), ('name', 'nodefault'), ('name', 'a'),
                 ('check', 'role:x'), ('check', '!'), ('dict',), ('conf', 'default'), ('conf', 'b'),
                 # a default given as a check object may be any check: a constant, a negation, a disjunction
-                ('check', '@'), ('check', 'not role:x'), ('check', 'role:x or role:y')]
+                ('check', '@'), ('check', 'not role:x'), ('check', 'role:x or role:y'),
+                # an empty string given to the constructor is "not given": the option (stock value `default`) applies
+                ('name_empty',)]
     queried = names + ['zz']
     # all rule sets: each name absent or defined with one of the bodies
     opts = [None] + BODIES
